@@ -98,6 +98,21 @@ def bit_and_const(x, c):
     return out
 
 
+def cond_const(t):
+    """(c, k) if t is If(c, 1, 0) * k or If(c, k, 0) with constant k >= 0"""
+    if z3.is_app(t) and t.decl().kind() == z3.Z3_OP_ITE:
+        a, b = const_int(t.arg(1)), const_int(t.arg(2))
+        if a is not None and b == 0 and a >= 0:
+            return t.arg(0), a
+    if z3.is_app(t) and t.decl().kind() == z3.Z3_OP_MUL and t.num_args() == 2:
+        for (u, v) in ((t.arg(0), t.arg(1)), (t.arg(1), t.arg(0))):
+            k = const_int(v)
+            cc = cond_const(u) if k is not None and k >= 0 else None
+            if cc is not None:
+                return cc[0], cc[1] * k
+    return None
+
+
 BOR = z3.Function('bor', I, I, I)
 BOR_W = 8
 
@@ -119,6 +134,12 @@ def bit_or(p, a, b):
                 out = out + (1 - (a / (1 << i)) % 2) * (1 << i)
             i += 1
         return out
+    for (x, y) in ((a, b), (b, a)):
+        cc = cond_const(y)
+        if cc is not None:
+            # x | (c << k) with a boolean c: either x or x | 2^k
+            cond, k = cc
+            return z3.If(cond, bit_or(p, x, z3.IntVal(k)), x)
     r = BOR(a, b)
     bits = z3.IntVal(0)
     for i in range(BOR_W):
@@ -340,7 +361,7 @@ class Engine:
             if v.cls in ('dict',):
                 return z3.Select(harr(p, '$card'), v.t) > 0
             if v.cls == 'deque':
-                return z3.Length(self.deque_items(p, v)) > 0
+                return self.deque_len(p, v) > 0
             return z3.BoolVal(True)
         if isinstance(v, (VFunc, VClass, VObj, VVer, VExc, VExt, VOpaque)):
             return z3.BoolVal(True)
@@ -442,8 +463,11 @@ class Engine:
     def _unsup(self, msg):
         raise Unsupported(msg)
 
-    def deque_items(self, p, v):
-        return val_get(z3.Select(farr(p, '$items'), v.t), 'list_ref')
+    def deque_len(self, p, v):
+        h = z3.Select(harr(p, '$dqh'), v.t)
+        t = z3.Select(harr(p, '$dqt'), v.t)
+        p.assume(t >= h)
+        return t - h
 
     # ================================================================== expressions
     def ev(self, node, p, fc):
